@@ -12,7 +12,7 @@ PROP = dict(
                "key field, a trace-ID field, a bin-typed key, a reserved meta.* name, an additional attribute) as the client's fields and every sequence of up to 3 mutating "
                "calls after construction (ExtractMetadata, MemoizeFields on several key sets, Set of meta.* / attribute / client-named fields) interleaved with the queries, and checks on the model that the forwarded "
                "map is exactly client fields + added fields (reserved names sent by the client excepted) and that the missing/memoized bookkeeping never hides a field. On the real Payload the "
-               "harness attaches typed values from a pool (int64 incl. MinInt64 and int64-format small ints, uint64 incl. MaxUint64, float32, float64 incl. -Inf, bool, empty/unicode/long strings, "
+               "harness attaches typed values from a pool - the abstract fields get one value each (rotated by seed), and every event additionally carries ALL pool values as 16 constant sampler key fields (memoized at construction on the key-field paths, by MemoizeFields on the others, raw before that), so each wire type goes through pass-through and memoize+re-encode in every walk - (int64 incl. MinInt64 and int64-format small ints, uint64 incl. MaxUint64, float32, float64 incl. -Inf, bool, empty/unicode/long strings, "
                "bin, nil, arrays, nested maps with a timestamp inside, msgpack timestamp ext -1; JSON: integers beyond 2^53, exponents, -0, escapes, nested), and after every step requires: no "
                "duplicate or foreign key, every value of the same msgpack type family and bits as sent (JSON: the float64/string/bool/null/nested value encoding/json reads), bytes already "
                "in the output buffer untouched, and Get/Exists/All/MarshalJSON in agreement with the marshalled bytes.",
@@ -25,7 +25,7 @@ PROP = dict(
                  "application-defined msgpack extension types out of scope (statement)"],
     stages=[
         dict(kind="walk", name="Payload", module="Payload", pkg="types", test="TestVerifC20Payload", harness=["types/c20_payload_test.go"],
-             cfg={"quick": "MC_Payload.cfg", "thorough": "MC_Payload_big.cfg"}, budget={"quick": 20, "thorough": 240}, maxwalk=16),
+             cfg={"quick": "MC_Payload.cfg", "thorough": "MC_Payload_big.cfg"}, budget={"quick": 40, "thorough": 240}, maxwalk=16),
         dict(kind="tlc", name="PayloadIdeal", module="Payload", cfg={"quick": None, "thorough": "MC_Payload_ideal.cfg"}, workers=8),
     ],
 )
